@@ -173,6 +173,9 @@ type level struct {
 	kind   string // main | func | modbody
 	file   string
 	nested bool
+	iife   bool // the function is a literal called where it is written: func(a) {…}(a)  (added after C14-m6)
+	noArg  bool // … without parameter: func() {…}()  (the body reads the enclosing a)
+	noRet  bool // the body has no trailing return
 }
 
 type gen struct {
@@ -248,6 +251,11 @@ func (g *gen) build() *caseT {
 		if prev.kind == "func" && prev.file == l.file && g.r.Chance(2, 5) {
 			l.nested = true
 		}
+		if (l.nested || (prev.kind == "main" && prev.file == l.file)) && g.r.Chance(1, 3) {
+			l.nested, l.iife = true, true
+			l.noArg = g.r.Bool()
+		}
+		l.noRet = g.r.Chance(1, 3)
 		g.lv = append(g.lv, l)
 	}
 	if g.modMode == "top" {
@@ -377,14 +385,14 @@ func (g *gen) writeBody(e *emitter, k int, ind string) {
 		g.deadCode(e, k, ind)
 		g.writeTarget(e, k, ind)
 	} else {
-		if g.lv[k+1].nested {
+		if g.lv[k+1].nested && !g.lv[k+1].iife {
 			g.writeFunc(e, k+1, ind)
 		}
 		g.deadCode(e, k, ind)
 		g.writeCall(e, k, ind)
 	}
 	g.fillers(e, ind)
-	if g.lv[k].kind == "func" {
+	if g.lv[k].kind == "func" && !g.lv[k].noRet {
 		e.w(ind + "return a\n")
 		if g.r.Chance(1, 3) {
 			e.w(ind + "a = 2\n" + ind + "return a\n")
@@ -459,6 +467,31 @@ func (g *gen) writeCall(e *emitter, k int, ind string) {
 	g.wrapped(e, ind, func(ind string) {
 		var text string
 		var off int
+		if child.iife {
+			// the callee is written where it is called; the call statement spans the whole literal
+			param, arg := "a", "a"
+			if child.noArg {
+				param, arg = "", ""
+			}
+			heads := []string{"", "r := ", "a = ", "r := 1 + "}
+			if isFunc {
+				heads = append(heads, "return ")
+			}
+			head := lib.Pick(g.r, heads)
+			e.w(ind)
+			lo := e.at()
+			e.w(head)
+			off := e.at()
+			e.w("func(" + param + ") {\n")
+			g.writeBody(e, k+1, ind+"  ")
+			e.w(ind + "}(" + arg + ")")
+			hi := e.at()
+			e.w("\n")
+			g.shape = append(g.shape, "call:iife", fmt.Sprintf("iife-noarg=%v-noret=%v", child.noArg, child.noRet))
+			g.callSpan[k] = span{e.name, lo, hi}
+			g.callOff[k] = off
+			return
+		}
 		if child.kind == "modbody" {
 			forms := []string{"mod := import(\"m1\")", "mod := [import(\"m1\")]", "if import(\"m1\") == 5 {\n%Ja = 0\n%I}", "mod := [\n%J1,\n%Jimport(\"m1\")\n%I]"}
 			text = expand(lib.Pick(g.r, forms), ind)
